@@ -4,6 +4,7 @@ mod util;
 mod sdq;
 mod sod;
 mod tlvv;
+mod tlvw;
 mod win;
 
 use std::io::{BufRead, Write};
@@ -35,6 +36,7 @@ fn main() {
             "sdq" => sdq::run(line),
             "sod" => sod::run(line),
             "tlvv" => tlvv::run(line),
+            "tlvw" => tlvw::run(line),
             _ => {
                 eprintln!("unknown family {family}");
                 std::process::exit(2);
